@@ -252,6 +252,10 @@ def single_placements(name):
 
 def jobs(tier, seed):
     js = [{"kind": "vanish"}]
+    # a pipelined Expect request (deferred 100 Continue sent by the worker) x a peer that is gone at one of the first sends x sampled schedules:
+    # the worker's tail of service() and the I/O thread's tear-down take the connection's two locks at the same time
+    for sh in range(3):
+        js.append({"kind": "expect_faults", "n": 250 if tier == "quick" else 6000, "seed": derive_seed(seed, "c13x", sh)})
     for name in SCENARIOS:
         js.append({"kind": "single", "scenario": name})
         if tier == "thorough":
@@ -296,7 +300,20 @@ def run_job(job, col):
         col.record(case, fs, nontrivial=nt, labels=labels)
 
     k = job["kind"]
-    if k == "vanish":
+    if k == "expect_faults":
+        import random
+        rnd = random.Random(job["seed"])
+        for _ in range(job["n"]):
+            kind = rnd.choice(["hot", "stall", "random"])
+            if kind == "hot":
+                spec = {"kind": "hot", "seed": rnd.randrange(10 ** 9), "p_hot": rnd.choice([0.15, 0.3, 0.5]), "p_cold": 0.01}
+            elif kind == "stall":
+                spec = {"kind": "stall", "seed": rnd.randrange(10 ** 9), "stalls": rnd.choice([1, 2]), "est_hot": rnd.choice([20, 40, 80]), "max_dur": rnd.choice([30, 100, 300])}
+            else:
+                spec = {"kind": "random", "seed": rnd.randrange(10 ** 9), "p": rnd.choice([0.05, 0.2])}
+            one({"scenario": "expect", "faults": {"send:%d" % rnd.randrange(0, 9): rnd.choice(["EPIPE", "ECONNRESET", "ENOTCONN"])}, "sticky": rnd.choice([True, False]),
+                 "schedule": spec, "gran": rnd.choice(["sync", "line"])})
+    elif k == "vanish":
         for case in list(vanish_cases()) + list(vanish_other_cases()):
             try:
                 fs, nt, labels, _t, _s = run_vanish(case)
